@@ -399,7 +399,7 @@ func (d DispatchInstr) Execute(env *Zlisp) error {
 		_, err := env.CallUserFunction(sxArrayOf, funcobj.SexpString(nil), d.nargs+1)
 		return err
 	}
-	return fmt.Errorf("unbalanced parenthesis in the input? : not a function on top of datastack: '%T/%#v'", funcobj, funcobj)
+	return fmt.Errorf("unbalanced parenthesis in the input? : not a function on top of datastack: '%T/%s'", funcobj, funcobj.SexpString(nil))
 }
 
 type ReturnInstr struct {
